@@ -329,4 +329,109 @@ class FaultEngine(Engine):
     return {'obs': obs, 'fails': fails[:3], 'nontrivial': nontrivial, 'tags': tags}
 
 
-ENGINES = [FaultEngine()]
+FULL = {'f': 'm.f', 'm.f': 'm.f', 'g': 'n.g', 'n.g': 'n.g', 'x.h': 'x.h', 'k': 'k'}
+
+
+class ProvenanceEngine(Engine):
+  """who set it last: sequences of parses (bindings strings and files, some failing half way) interleaved with
+  gin.bind_parameter calls from Python; the provenance record and the '# Set in' comments of
+  config_str(show_provenance=True) must name the statement that LAST set each binding, and nothing for a
+  binding last set from Python."""
+  name = 'provenance'
+  imports = 'Model.SelectorMap Model.Parser Model.Stmt Model.StmtEngine'
+  run_fn = 'run2'
+
+  def budget(self, tier):
+    return 150 if tier == 'quick' else 5000
+
+  def corpus(self):
+    return [{'calls': [['text', [['', 'f', 'a', 1], ['', 'f', 'b', 2]], None], ['bind', '', 'f', 'a', 5],
+                       ['text', [['s1', 'g', 'a', 3], ['', 'nosuch', 'a', 1], ['', 'f', 'c', 4]], None], ['bind', 's1', 'g', 'a', 6]]}]
+
+  def gen(self, rng, tier):
+    calls = []
+    for _ in range(rng.randint(2, 6)):
+      r = rng.random()
+      def one():
+        sel, ps = rng.choice(TARGETS)
+        return [rng.choice(['', '', 's1']), sel, rng.choice(ps[:2]), rng.randint(0, 99)]
+      if r < 0.45:
+        calls.append(['bind'] + one())
+      else:
+        items = [one() for _ in range(rng.randint(1, 4))]
+        if rng.random() < 0.25:
+          items.insert(rng.randint(0, len(items)), ['', 'nosuch', 'a', 1])     # the parse fails there
+        calls.append(['text' if rng.random() < 0.6 else 'file', items, None])
+    return {'calls': calls}
+
+  def case(self, c):
+    files = {}
+    calls = []
+    for i, call in enumerate(c['calls']):
+      if call[0] == 'bind':
+        calls.append(call)
+        continue
+      text = ''.join('%s%s.%s = %d\n' % (sc + '/' if sc else '', sel, p, v) for sc, sel, p, v in call[1])
+      if call[0] == 'text':
+        calls.append(['text', text, None])
+      else:
+        files['p%d.gin' % i] = text
+        calls.append(['file', 'p%d.gin' % i, None])
+    return {'regs': REGS, 'consts': [], 'files': [{}, files], 'prefixes': [''], 'modules': MODULES, 'calls': calls, 'engine2': True}
+
+  def to_coq(self, c):
+    return textm.case_coq(self.case(c))
+
+  def shrink(self, c):
+    for i in range(len(c['calls'])):
+      yield {'calls': c['calls'][:i] + c['calls'][i + 1:]}
+
+  def impl(self, c):
+    case = self.case(c)
+    m = textm.TextMachine(case)
+    fails = []
+    try:
+      obs, _ = m.run()
+      text = m.gin.config_str(show_provenance=True)
+    finally:
+      m.close()
+    # the property's own bookkeeping
+    want = {}
+    for i, call in enumerate(c['calls']):
+      if call[0] == 'bind':
+        if call[2] in FULL:
+          want[(call[1], FULL[call[2]], call[3])] = None
+        continue
+      for ln, (sc, sel, p, v) in enumerate(call[1], 1):
+        if sel not in FULL:
+          break                 # the parse stops here: nothing after it is applied
+        want[(sc, FULL[sel], p)] = ('' if call[0] == 'text' else 'p%d.gin' % i, ln)
+    got = {}
+    for sc, q, pd in obs[len(case['calls']) + 1]:
+      for p, fname, line in pd:
+        got[(sc, q, p)] = None if fname == '<none>' else (fname, line)
+    if got != want:
+      diff = {str(k): (want.get(k, 'absent'), got.get(k, 'absent')) for k in set(want) | set(got) if want.get(k, 'absent') != got.get(k, 'absent')}
+      fails.append(('provenance-names-wrong-statement', 'binding -> (last setter, recorded): %r' % diff))
+    # the comments of config_str(show_provenance=True): '# Set in <where>:<line>:' directly above the binding it describes
+    lines = text.split('\n')
+    shown = {}
+    for i, l in enumerate(lines):
+      if ' = ' in l and not l.startswith('#'):
+        key = l.split(' = ')[0]
+        prev = lines[i - 1] if i else ''
+        shown[key] = prev if prev.startswith('# Set in ') else None
+    for (sc, q, p), w in want.items():
+      short = [k for k in shown if k.endswith('.' + p) and (k.startswith(sc + '/') if sc else '/' not in k) and
+               q.endswith(k[len(sc) + 1 if sc else 0:].rsplit('.', 1)[0])]
+      if len(short) != 1:
+        continue
+      comment = shown[short[0]]
+      exp = None if w is None else '# Set in %s:%d:' % (w[0] or 'bindings string', w[1])
+      if comment != exp:
+        fails.append(('provenance-comment-wrong', '%s: comment %r, last set by %r' % (short[0], comment, w)))
+    nontrivial = any(cl[0] == 'bind' for cl in c['calls'][1:]) and any(cl[0] != 'bind' for cl in c['calls'])
+    return {'obs': obs, 'fails': fails[:3], 'nontrivial': nontrivial, 'tags': [cl[0] for cl in c['calls']]}
+
+
+ENGINES = [FaultEngine(), ProvenanceEngine()]
